@@ -8,6 +8,9 @@ constructs a maintainer writes either way:
  N5  `switch (e) { case A: S1 ... default: Sd }` whose groups all end in return / break / continue / throw (no fall-through
      into another group's statements; stacked labels `case A: case B:` are one group) and whose `e` has no side effect
      becomes `if (e == A) S1 else if (e == B) S2 ... else Sd` (trailing `break`s dropped)
+ N7  a never-reassigned `bool` local with a side-effect-free initialiser over never-reassigned locals / parameters is
+     replaced by its initialiser where it is used as a condition (`const bool r = a > b || ...; return r ? x : y;`)
+ N9  the statement `x = c ? a : b;` becomes `if (c) x = a; else x = b;`
  N3  a `for` statement without a condition, `for (T i = a; ; ++i) { body }` (no `continue` in body), becomes
          T i = a;  while (true) { body; ++i; }
      (the endless scan loop of the matcher is written either way)
@@ -214,6 +217,91 @@ def _switch_to_if(sw):
     return tail
 
 
+def _assign_ternary(st):
+    """ExprStmt `x = c ? a : b` -> IfStmt, else None."""
+    x = st
+    while isinstance(x, dict) and x.get("k") in ("ExprWithCleanups", "ParenExpr"):
+        cc = x.get("c") or []
+        x = cc[0] if len(cc) == 1 else None
+    if not isinstance(x, dict):
+        return None
+    if x.get("k") == "BinaryOperator" and x.get("op") == "=":
+        lhs, rhs, mk = x["c"][0], x["c"][1], lambda r: dict(x, c=[lhs, r], synthetic=True)
+    elif x.get("k") == "CXXOperatorCallExpr" and x.get("op") == "=" and len(x.get("c") or []) == 3:
+        lhs, rhs, mk = x["c"][1], x["c"][2], lambda r: dict(x, c=[x["c"][0], lhs, r], synthetic=True)
+    else:
+        return None
+    r = rhs
+    while isinstance(r, dict) and r.get("k") in ("ParenExpr", "ImplicitCastExpr", "ExprWithCleanups", "MaterializeTemporaryExpr"):
+        cc = r.get("c") or []
+        r = cc[0] if len(cc) == 1 else None
+    if not isinstance(r, dict) or r.get("k") != "ConditionalOperator" or not _pure(lhs):
+        return None
+    cond, a, b = r["c"]
+    return {"k": "IfStmt", "l": st.get("l"), "cond": cond, "then": mk(a), "else": mk(b), "synthetic": True}
+
+
+def _expand_bool_temps(body, is_bool):
+    """N7 on a whole function body (in place)."""
+    written = set()
+    for n in walk(body):
+        k = n.get("k")
+        t = None
+        if k in ("BinaryOperator", "CompoundAssignOperator") and n.get("op", "").endswith("=") and \
+                n.get("op") not in ("==", "!=", "<=", ">="):
+            t = n["c"][0]
+        elif k == "UnaryOperator" and n.get("op") in ("++", "--"):
+            t = n["c"][0]
+        elif k == "CXXOperatorCallExpr" and (n.get("op") in ("++", "--") or (n.get("op", "").endswith("=") and
+                                                                             n.get("op") not in ("==", "!=", "<=", ">="))):
+            t = n["c"][1] if len(n.get("c") or []) > 1 else None
+        if t is not None:
+            s = strip(t, casts=True)
+            if s is not None and s.get("k") == "DeclRefExpr":
+                written.add(s["d"]["id"])
+    temps = {}
+    for n in walk(body):
+        if n.get("k") == "Var" and n.get("init") is not None and n["id"] not in written and not n.get("ref") and \
+                is_bool(n.get("t")) and _pure(n["init"]):
+            ok = True
+            for x in walk(n["init"]):
+                if x.get("k") == "DeclRefExpr" and x["d"]["k"] in ("Var", "ParmVar") and x["d"]["id"] in written:
+                    ok = False
+                if x.get("k") in ("UnaryOperator",) and x.get("op") == "*":
+                    ok = False          # reads through a pointer / iterator: what it points to may change
+            if ok:
+                temps[n["id"]] = n["init"]
+    if not temps:
+        return 0
+    n_rep = 0
+
+    def sub(e):
+        nonlocal n_rep
+        """expression in condition position: replace references to bool temporaries"""
+        if not isinstance(e, dict):
+            return e
+        s = e
+        k = s.get("k")
+        if k == "DeclRefExpr" and s["d"]["id"] in temps:
+            n_rep += 1
+            return {"k": "ParenExpr", "l": s.get("l"), "t": s.get("t"), "c": [temps[s["d"]["id"]]], "synthetic": True}
+        if k in ("ImplicitCastExpr", "ParenExpr", "ExprWithCleanups") and len(s.get("c") or []) == 1:
+            s["c"][0] = sub(s["c"][0])
+        elif k == "UnaryOperator" and s.get("op") == "!":
+            s["c"][0] = sub(s["c"][0])
+        elif k == "BinaryOperator" and s.get("op") in ("&&", "||"):
+            s["c"][0] = sub(s["c"][0])
+            s["c"][1] = sub(s["c"][1])
+        return e
+    for n in walk(body):
+        k = n.get("k")
+        if k in ("IfStmt", "WhileStmt", "DoStmt", "ForStmt") and isinstance(n.get("cond"), dict):
+            n["cond"] = sub(n["cond"])
+        elif k == "ConditionalOperator":
+            n["c"][0] = sub(n["c"][0])
+    return n_rep
+
+
 def _split_return(s):
     """ReturnStmt node -> IfStmt with two returns, when the value is a conditional expression."""
     v = s.get("value")
@@ -231,11 +319,13 @@ def _split_return(s):
             "synthetic": True}
 
 
-def normalise(body):
-    """In-place normalisation of a function body; returns the number of rewrites."""
+def normalise(body, is_bool=None):
+    """In-place normalisation of a function body; returns the number of rewrites. is_bool(type id) -> bool enables N7."""
     if not isinstance(body, dict):
         return 0
     n = 0
+    if is_bool is not None:
+        n += _expand_bool_temps(body, is_bool)
 
     def rec(node):
         nonlocal n
@@ -260,6 +350,11 @@ def normalise(body):
             for i, x in enumerate(c):
                 if isinstance(x, dict) and x.get("k") == "ReturnStmt":
                     r = _split_return(x)
+                    if r is not None:
+                        c[i] = r
+                        n += 1
+                elif isinstance(x, dict):
+                    r = _assign_ternary(x)
                     if r is not None:
                         c[i] = r
                         n += 1
